@@ -4,6 +4,7 @@
 pub mod case;
 pub mod fio;
 pub mod gen;
+pub mod mt;
 pub mod ours;
 pub mod props;
 pub mod refimpl;
